@@ -1,4 +1,5 @@
 import Percival.Gen.HumansizeC
+import Percival.Spec.Humansize
 /-!
 # Model of `util/humansize.c` (C16)
 
@@ -9,15 +10,14 @@ the final multiplication with its overflow check.
 
 `humansize`: the `size < 1000` special case, the division loop keeping `10·size/1000^n`, the
 prefix lookup `" kMGTPE"[shiftcnt]` (an index past the array is an explicit `oob` outcome) and
-the two `asprintf` formats.  `%d` is modelled by `decBytes` (libc, trusted).  `asprintf` failure
+the two `asprintf` formats.  `%d` is modelled by `Spec.Humansize.decBytes` (libc, trusted).  `asprintf` failure
 (allocation) is not modelled here (C14).
 
 Constants come from `Gen/HumansizeC.lean`, regenerated from the source on every run.
 -/
 namespace Percival.Model.Humansize
 open Percival.Gen
-
-def U64MAX : Nat := 2 ^ 64 - 1
+open Percival.Spec.Humansize (decBytes U64MAX)
 
 /-! ## humansize_parse -/
 
@@ -108,9 +108,6 @@ def parse (s : List UInt8) : ParseResult :=
   | _ => finish (run init s)
 
 /-! ## humansize -/
-
-/-- `%d` for a non-negative value (libc, trusted) -/
-def decBytes (n : Nat) : List UInt8 := (Nat.repr n).toList.map (fun ch => ch.toNat.toUInt8)
 
 /-- `for (…; size >= 10000; shiftcnt++) size /= 1000;` -/
 def shiftLoop (size shiftcnt : Nat) : Nat × Nat :=
